@@ -609,8 +609,11 @@ impl C09 {
         // requirements already obtained, made concurrently with the solver's own
         let reentrant = gated && !self.conflict_free && hash_of(&(&c.problem, c.u.vsets.len())) % 4 == 0;
         if reentrant {
-            session.provider().probe.set(crate::provider::SortProbe::Deps);
-            rep.labels.push("re-entrant-sort");
+            // half of them: the first nested request the sort would have to wait for is given up
+            // after a while (callers that wait for it meanwhile must share ONE new request)
+            let abandon = hash_of(&(&c.problem, c.u.vsets.len())) % 8 == 4;
+            session.provider().probe.set(if abandon { crate::provider::SortProbe::DepsAbandon } else { crate::provider::SortProbe::Deps });
+            rep.labels.push(if abandon { "re-entrant-sort-abandoning" } else { "re-entrant-sort" });
         }
         let mut model = FetchModel::new();
         let mut problems = vec![c.problem.clone()];
